@@ -121,6 +121,17 @@ class Injector:
         for nm in o["names"]:
             if nm.endswith((".json", ".jsonl", ".meta")) or not nm.startswith(self.dest.name + "."):
                 self.problems.append(("NoStrayTempAfterFailure", f"temp name {nm!r} could be mistaken for real data"))
+        # a reader that DISCOVERS the snapshot at this very moment (a temporary may be lying next to the destination)
+        # is handed the published file or nothing - never the writer's temporary
+        if o["names"] and self.dest.name.startswith("state_") and self.dest.name.endswith(".json"):
+            try:
+                from clematis.engine import snapshot as _S
+                picked = _S._pick_latest_snapshot_path(str(self.dest.parent))
+            except Exception as e:      # noqa: BLE001
+                picked = f"<raised {type(e).__name__}>"
+            if picked and os.path.basename(str(picked)) in o["names"]:
+                self.problems.append(("ReaderNeverPartial", f"snapshot discovery run at step {self.i} ({self.cur_site()}) picks the writer's temporary "
+                                                            f"{os.path.basename(str(picked))!r}"))
 
     def cur_site(self):
         return self.h[self.i]["site"] if self.i < len(self.h) else "<end>"
